@@ -3,4 +3,4 @@
 From Coq Require Import Extraction ExtrOcamlBasic.
 From RV Require Import Model.Base Model.Bytes Model.Storage Model.Decoder Model.Loader Model.Builder Model.Disasm Model.Lift Inst.Run Inst.Run2.
 Extraction Language OCaml.
-Extraction "model.ml" Storage.c19_run_case Storage.tok_of_len Run.c11_run_case Run.c15_eval_case Run.run_parse_case Run.run_asm_case Run.feed_case Run.feed_case_prefix Bytes.bytes_of_word Run.load_case Run.assemble_module Run.bld_step Run.bld_find Builder.bnew Builder.finish Run2.dis_case Run2.dis_own_case Disasm.tool_name Run2.lift_case.
+Extraction "model.ml" Storage.c19_run_case Storage.tok_of_len Run.c11_run_case Run.c15_eval_case Run.run_parse_case Run.run_asm_case Run.feed_case Run.feed_case_prefix Bytes.bytes_of_word Run.load_case Run.assemble_module Run.bld_step Run.bld_find Builder.bnew Builder.finish Builder.bfrom Builder.new_header Loader.empty_module Builder.find_return_blocks Builder.select_function_by_name Run2.dis_case Run2.dis_own_case Disasm.tool_name Run2.lift_case.
